@@ -1,0 +1,73 @@
+//go:build verif
+
+package lib
+
+import (
+	"net"
+	"sync"
+	"time"
+)
+
+// Verification seams (see /verif/DESIGN.md). Only compiled with -tags verif.
+// The simulator installs its callbacks in the variables below before any
+// simulated run starts; with none installed everything is a no-op.
+
+var (
+	// VerifHook is called at every scheduling point (inserted into a
+	// build-time copy of the sources by the verification instrumenter).
+	VerifHook func(id string)
+	// VerifLockHook is called with +1 before a mutex is acquired and -1 after
+	// it was released by instrumented code.
+	VerifLockHook func(delta int)
+
+	VerifDial   func(network, addr string) (net.Conn, error)
+	VerifListen func(network, addr string) (net.Listener, error)
+)
+
+func VerifPoint(id string) {
+	if h := VerifHook; h != nil {
+		h(id)
+	}
+}
+
+func VerifLockEnter() {
+	if h := VerifLockHook; h != nil {
+		h(1)
+	}
+}
+
+func VerifLockExit() {
+	if h := VerifLockHook; h != nil {
+		h(-1)
+	}
+}
+
+func VerifGo0(id string, f func()) { VerifPoint(id); f() }
+
+func VerifGo1[A any](id string, f func(A), a A) { VerifPoint(id); f(a) }
+
+func VerifGo2[A, B any](id string, f func(A, B), a A, b B) { VerifPoint(id); f(a, b) }
+
+func VerifGo3[A, B, C any](id string, f func(A, B, C), a A, b B, c C) {
+	VerifPoint(id)
+	f(a, b, c)
+}
+
+func VerifGo4[A, B, C, D any](id string, f func(A, B, C, D), a A, b B, c C, d D) {
+	VerifPoint(id)
+	f(a, b, c, d)
+}
+
+func VerifDialer() func(network, addr string) (net.Conn, error) { return VerifDial }
+
+func VerifListener() func(network, addr string) (net.Listener, error) { return VerifListen }
+
+// VerifResetPools drops pooled objects that are bound to a finished
+// simulated run (a pooled time.Timer must not cross testing/synctest bubbles).
+func VerifResetPools() {
+	timers = &sync.Pool{
+		New: func() any {
+			return time.NewTimer(time.Second * 5)
+		},
+	}
+}
